@@ -534,7 +534,7 @@ func genCorruptArchive(t *rapid.T) BytesCase {
 		// the hostile part sits one level down: the control member is a tar whose './control' entry
 		// is a sparse file (old GNU 'S' header: a few bytes stored, a huge logical size the tar reader
 		// fills with NULs it makes up), a directory, a symlink, or declares more data than there is
-		kind := rapid.SampledFrom([]string{"sparse-2^20", "sparse-2^40", "sparse-2^62", "dir", "symlink", "short", "pax-sparse-control", "pax-sparse-other-before", "pax-sparse-other-after", "pax-sparse-0.1-realsize", "pax-sparse-0.1-size", "pax-sparse-0.0", "size-claim-2^62", "size-claim-2^55", "size-claim-other-2^62", "many-continuation-lines", "huge-dependency-token", "clearsigned-control"}).Draw(t, "tarkind")
+		kind := rapid.SampledFrom([]string{"sparse-2^20", "sparse-2^40", "sparse-2^62", "dir", "symlink", "short", "pax-sparse-control", "pax-sparse-other-before", "pax-sparse-other-after", "pax-sparse-0.1-realsize", "pax-sparse-0.1-size", "pax-sparse-0.0", "size-claim-2^62", "size-claim-2^55", "size-claim-other-2^62", "many-continuation-lines", "huge-dependency-token", "clearsigned-control", "relation-cut-short", "relation-cut-short"}).Draw(t, "tarkind")
 		note = "tarlevel:" + kind
 		var ctl []byte
 		gzControl := false
@@ -597,6 +597,19 @@ func genCorruptArchive(t *rapid.T) BytesCase {
 			head := rapid.SampledFrom([]string{"-----BEGIN PGP SIGNED MESSAGE-----\nHash: SHA256\n\n", "-----BEGIN PGP SIGNED MESSAGE-----\n\n", "-----BEGIN PGP SIGNED MESSAGE-----\n", "-----BEGIN PGP SIGNED MESSAGE-----\nHash: MD5\nHash: SHA1\n\n", "-----BEGIN PGP SIGNED MESSAGE-----\nHash:\n\n", "-----BEGIN PGP SIGNED MESSAGE-----\nComment: x\n\n"}).Draw(t, "csHead")
 			tail := rapid.SampledFrom([]string{"-----BEGIN PGP SIGNATURE-----\n\niQEzBAEBCAAdFiEE\n=abcd\n-----END PGP SIGNATURE-----\n", "-----BEGIN PGP SIGNATURE-----\niQEzBAEBCAAdFiEE\n-----END PGP SIGNATURE-----\n", "-----BEGIN PGP SIGNATURE-----\n", "", "-----END PGP SIGNATURE-----\n-----BEGIN PGP SIGNATURE-----\n\n-----END PGP SIGNATURE-----\n"}).Draw(t, "csTail")
 			ctl, _ = buildTar([]TarFile{{Name: "./control", Type: "reg", Content: []byte(head + body + tail)}})
+		case "relation-cut-short":
+			// a control file whose relationship field stops in the middle of a construct - at the very
+			// end of the field, where a parser that looks one byte ahead looks past the end
+			rel := rapid.SampledFrom([]string{"libc6, $", "$", "a | $", "a (>= $", "a [$", "${", "a, ${x", "a (", "a [", "a <", "a:", "a (>=", "a (>= 1", "a,", "|", ",", "a [!", "a <!", "a [amd64", "a <x", "a (>= 1) [", "${a}$", "a $", "a ["}).Draw(t, "relCut")
+			field := rapid.SampledFrom([]string{"Depends", "Recommends", "Suggests", "Breaks", "Replaces", "Built-Using", "Pre-Depends"}).Draw(t, "relField")
+			last := rapid.Bool().Draw(t, "relLast")
+			text := "Package: x\nVersion: 1\nArchitecture: all\nMaintainer: A <a@b.c>\n"
+			if last {
+				text += "Description: d\n" + field + ": " + rel // the file ends with the field, no line end
+			} else {
+				text += field + ": " + rel + "\nDescription: d\n"
+			}
+			ctl, _ = buildTar([]TarFile{{Name: "./control", Type: "reg", Content: []byte(text)}})
 		case "huge-dependency-token":
 			// ... or into a relationship field made of ONE token of 600 000 to 1 000 000 bytes - a
 			// package name, a version, an architecture, a qualifier, a substvar, a profile
@@ -726,7 +739,7 @@ func genCorruptArchive(t *rapid.T) BytesCase {
 
 var specC15Corrupt = Register(&Spec[BytesCase]{
 	Prop: "C15", Name: "corrupt",
-	Rule:  "structured corruption of valid artefacts (C13 archives and C14 packages with stored/gzip members): one header column (name, mtime, uid, gid, mode, size, magic) of one member overwritten with negative, '+'-signed, huge, blank, non-numeric, NUL, hex or overflowing text; 2..4 numeric columns of one header made non-numeric at once; debian-binary saying 2.0 and going on (a second line, 4 KiB more, NUL) or saying it another way ('2.0' without line end, CRLF, '2.00', '2', ' 2.0'); further members of BOTH kinds under names of their own (control.txt and data.sig, control.tar and data.tar.gz ...) at any positions; a member renamed '//' and later ones '/<offset>' (GNU long-name table and references); the control member replaced by a stored tar whose './control' entry is a GNU sparse file of 2^20 / 2^40 / 2^62 made-up bytes, a directory, a symlink, or cut short, or which carries - as ./control or next to it - a PAX-style sparse entry of 2^40 made-up bytes (format 1.0; as ./control also the older spellings without a version record - 0.1 with the real size under 'size' or 'realsize', 0.0 with offset/numbytes pairs - with the control text behind a hole of 2^33, 2^40 or 2^62 bytes), or a regular entry (./control or the file in front of it) whose base-256 size field claims 2^55 or 2^62 bytes, or replaced by a few KiB of gzip whose './control' is one field with 500 000 to 800 000 continuation lines (it has to be read in a time that does not grow with the square of that), or whose Depends is one token of 600 000 to 1 000 000 bytes, or whose './control' comes wrapped in a clearsign frame (with / without Hash: header, empty line, signature, END line); one or both header magic bytes changed; truncation at a generated offset; a member duplicated (same or changed content), members reordered, a decoy control.*/data.* member with another extension (optionally a tar with 'Package: evil') inserted; the control or data member made unopenable (renamed to .txt / .bin, emptied, its gzip header damaged); a padding byte added or removed; a global magic byte flipped. Oracle: no panic; the Next() loop ends in io.EOF or an error within len/60+2 steps; every returned member sits behind a header ending 0x60 0x0A, has Size >= 0 and a reader delivering exactly Size bytes - read through a plain io.ReaderAt that does not tell its size, and again through a bytes.Reader (Size), an io.SectionReader window of a larger buffer and (one input in eight) a file on disk (Stat); deb.Load stays within a read budget and returns within 20 s; seven iterations / loads of the same bytes, and one through an io.SectionReader window of a larger buffer with a valid archive behind it, give the same outcome (the same error text, or the same extensions, control identity and member index). Non-trivial: >= 1 member returned or a first header parsed; distinct by bytes.",
+	Rule:  "structured corruption of valid artefacts (C13 archives and C14 packages with stored/gzip members): one header column (name, mtime, uid, gid, mode, size, magic) of one member overwritten with negative, '+'-signed, huge, blank, non-numeric, NUL, hex or overflowing text; 2..4 numeric columns of one header made non-numeric at once; debian-binary saying 2.0 and going on (a second line, 4 KiB more, NUL) or saying it another way ('2.0' without line end, CRLF, '2.00', '2', ' 2.0'); further members of BOTH kinds under names of their own (control.txt and data.sig, control.tar and data.tar.gz ...) at any positions; a member renamed '//' and later ones '/<offset>' (GNU long-name table and references); the control member replaced by a stored tar whose './control' entry is a GNU sparse file of 2^20 / 2^40 / 2^62 made-up bytes, a directory, a symlink, or cut short, or which carries - as ./control or next to it - a PAX-style sparse entry of 2^40 made-up bytes (format 1.0; as ./control also the older spellings without a version record - 0.1 with the real size under 'size' or 'realsize', 0.0 with offset/numbytes pairs - with the control text behind a hole of 2^33, 2^40 or 2^62 bytes), or a regular entry (./control or the file in front of it) whose base-256 size field claims 2^55 or 2^62 bytes, or by a control file whose relationship field stops in the middle of a construct ('libc6, $', 'a (>=', 'a [!', '${' ...), also as the last bytes of the file, or replaced by a few KiB of gzip whose './control' is one field with 500 000 to 800 000 continuation lines (it has to be read in a time that does not grow with the square of that), or whose Depends is one token of 600 000 to 1 000 000 bytes, or whose './control' comes wrapped in a clearsign frame (with / without Hash: header, empty line, signature, END line); one or both header magic bytes changed; truncation at a generated offset; a member duplicated (same or changed content), members reordered, a decoy control.*/data.* member with another extension (optionally a tar with 'Package: evil') inserted; the control or data member made unopenable (renamed to .txt / .bin, emptied, its gzip header damaged); a padding byte added or removed; a global magic byte flipped. Oracle: no panic; the Next() loop ends in io.EOF or an error within len/60+2 steps; every returned member sits behind a header ending 0x60 0x0A, has Size >= 0 and a reader delivering exactly Size bytes - read through a plain io.ReaderAt that does not tell its size, and again through a bytes.Reader (Size), an io.SectionReader window of a larger buffer and (one input in eight) a file on disk (Stat); deb.Load stays within a read budget and returns within 20 s; seven iterations / loads of the same bytes, and one through an io.SectionReader window of a larger buffer with a valid archive behind it, give the same outcome (the same error text, or the same extensions, control identity and member index). Non-trivial: >= 1 member returned or a first header parsed; distinct by bytes.",
 	Check: checkBytesCase,
 })
 
